@@ -9,8 +9,11 @@ text = f'''<!-- SEEDED-BEGIN -->
 ## 13. Seeded breaking changes and the checks that catch them
 
 {n} changes to jig/lisp were written by fresh sub-agents that saw only the text of one property and a
-scratch worktree (nothing from /verif), in two rounds (the second round was told what the first had produced so
-as not to repeat it). Every change compiles, passes the 48 baseline tests and comes with a demonstration that
+scratch worktree (nothing from /verif), in four rounds. Rounds 2–4 were told what earlier rounds had produced so as
+not to repeat it; round 3 was asked for changes needing a conjunction of rare conditions; in round 4 the agents for
+the sequential properties (C01–C06, C12–C20) were additionally told, in prose, which workload families the checks
+already generate and asked to aim outside them (an adversarial round: it can only lower the detection rate; the
+agents for C07–C11 in that round got no such description). Every change compiles, passes the 48 baseline tests and comes with a demonstration that
 fails with it and passes without; each was confirmed with `bin/seedverify.sh` in a scratch worktree, then the
 property's check was run against a scratch worktree with the change applied (`bin/seedrun.sh`, /repo untouched).
 `seeded/<id>/` holds patch.diff, demo_test.go, meta.json (what it breaks, what it needs to manifest, how to run the
